@@ -545,6 +545,7 @@ LP = "dataiter/list_of_dicts.py::ListOfDicts."
 lod_join_driver(LP + "left_join[same-named key]", "left")
 lod_join_driver(LP + "left_join[key named differently]", "left", renamed=True)
 lod_join_driver(LP + "inner_join[same-named key]", "inner")
+lod_join_driver(LP + "inner_join[key named differently]", "inner", renamed=True)
 lod_join_driver(LP + "semi_join", "semi")
 lod_join_driver(LP + "anti_join", "anti")
 lod_join_driver(LP + "anti_join[key named differently]", "anti", renamed=True)
